@@ -224,11 +224,15 @@ pub struct PartialSink {
     /// Pending (after waking) before write k iff bit (k % 64) of the mask is set
     pub pend_mask: u64,
     pub calls: usize,
+    /// reports `is_write_vectored()` and accepts partial vectored writes (at most `max` bytes in
+    /// total, the cut may fall inside any of the slices)
+    pub vectored: bool,
     pending_given: bool,
 }
 impl PartialSink {
+    /// `max` = at most that many bytes per write; bit 7 set = the sink supports vectored writes
     pub fn new(max: usize, pend_mask: u64) -> Self {
-        PartialSink { out: vec![], max: max.max(1), pend_mask, calls: 0, pending_given: false }
+        PartialSink { out: vec![], max: (max & 0x7f).max(1), pend_mask, calls: 0, vectored: max & 0x80 != 0, pending_given: false }
     }
 }
 impl tokio::io::AsyncWrite for PartialSink {
@@ -244,6 +248,31 @@ impl tokio::io::AsyncWrite for PartialSink {
         let n = buf.len().min(this.max);
         this.out.extend_from_slice(&buf[..n]);
         Poll::Ready(Ok(n))
+    }
+    fn poll_write_vectored(self: Pin<&mut Self>, cx: &mut Context<'_>, bufs: &[io::IoSlice<'_>]) -> Poll<io::Result<usize>> {
+        let this = self.get_mut();
+        if this.pend_mask >> (this.calls % 64) & 1 == 1 && !this.pending_given {
+            this.pending_given = true;
+            cx.waker().wake_by_ref();
+            return Poll::Pending;
+        }
+        this.pending_given = false;
+        this.calls += 1;
+        let mut left = this.max;
+        let mut n = 0;
+        for b in bufs {
+            let k = b.len().min(left);
+            this.out.extend_from_slice(&b[..k]);
+            n += k;
+            left -= k;
+            if left == 0 {
+                break;
+            }
+        }
+        Poll::Ready(Ok(n))
+    }
+    fn is_write_vectored(&self) -> bool {
+        self.vectored
     }
     fn poll_flush(self: Pin<&mut Self>, _cx: &mut Context<'_>) -> Poll<io::Result<()>> {
         Poll::Ready(Ok(()))
